@@ -1,7 +1,7 @@
 //! Logic related to the Responder, the components in charge of making sure breaches get properly punished.
 
 use std::collections::HashSet;
-use std::sync::{Arc, Mutex};
+use std::sync::Arc;
 
 use bitcoin::hashes::Hash;
 use bitcoin::{consensus, BlockHash};
@@ -19,6 +19,7 @@ use crate::dbm::DBM;
 use crate::extended_appointment::UUID;
 use crate::gatekeeper::Gatekeeper;
 use crate::tx_index::TxIndex;
+use crate::vsync::Mutex;
 use crate::watcher::Breach;
 
 /// Number of missed confirmations to wait before rebroadcasting a transaction.
